@@ -116,6 +116,12 @@ def cases(ctx):
         for order in ("AB", "BA", "AAB", "ABA"):
             yield ("blockreuse", ki, order)
     yield ("published",)
+    # two callers in two threads: the packing of one block is suspended at EVERY line event inside bec2format, the plug-in's
+    # adapter and the key-agreement helper while another block is packed completely; both blocks must open for their own
+    # recipient to their own session key (state shared between the two calls would mix them up)
+    for pairing in ("two-recipients", "same-recipient", "default-and-explicit"):
+        for direction in (0, 1):
+            yield ("threads", pairing, direction)
     # the ECC block of a whole written file, in every header position next to the other block kinds, for an explicit recipient
     # listed first / last among the caller's encryptors
     from itertools import permutations
@@ -185,9 +191,69 @@ def run_file(ctx, case):
     return check_block(o, ecc[0], sel, key, d, "file with blocks %r, recipient listed %s, %s" % (order, pos, sink))
 
 
+def _traced(fn):
+    return (fn.startswith(target.REPO + "/bec2format/") or fn == target.APPNOTES + "/register_crypto_plugin/__init__.py"
+            or fn.endswith("/ecdsa/ecdh.py"))
+
+
+def run_threads(ctx, case):
+    from .. import preempt
+    _, pairing, direction = case
+    o = Outcome("ok", True)
+    d1, d2 = scalars(ctx)[1], scalars(ctx)[2]
+    k1, k2 = key_of(ctx, 0), key_of(ctx, 2)
+    if pairing == "two-recipients":
+        jobs = [(0, d1, k1, True), (2, d2, k2, True)]
+    elif pairing == "same-recipient":
+        jobs = [(1, d1, k1, True), (1, d1, k2, True)]
+    else:
+        jobs = [(3, d2, k1, False), (3, d1, k2, True)]
+    if direction:
+        jobs.reverse()
+    saved = dict(EccEncryptor.DEFAULT_PUBLIC_KEYS)
+    try:
+        for sel, d, key, explicit in jobs:
+            if not explicit:
+                Q = EC.P256.mul(d, EC.P256.g)
+                EccEncryptor.DEFAULT_PUBLIC_KEYS[sel] = D.spki(Q[0], Q[1], 32, P256_OID)
+
+        def packer(job):
+            sel, d, key, explicit = job
+            return lambda: InitEccAuthBlock(sel).pack(key, [EccEncryptor(sel, FX.priv_key(d).public_key)] if explicit else [])
+        with DetRandom("c09-%r-trace" % (case,)):
+            events = preempt.line_events(packer(jobs[0]), _traced)
+        n = 0
+        for at in range(len(events)):
+            with DetRandom("c09-%r-%d" % (case, at)):
+                ra, rb, ran = preempt.run_preempted(packer(jobs[0]), packer(jobs[1]), at, _traced)
+            n += 1
+            if not ran:
+                o.viol("threads|harness", "preemption point %d was not reached" % at)
+                break
+            for who, res, (sel, d, key, explicit) in (("suspended", ra, jobs[0]), ("preempting", rb, jobs[1])):
+                if isinstance(res, BaseException):
+                    o.viol("threads|raised|%s" % type(res).__name__, "%s: the %s call raised %r when the other call ran at %s:%d" % (
+                        pairing, who, res, events[at][0], events[at][1]))
+                    break
+                if len(res) != 82 or res[0] != sel or EC.ecies_unwrap(EC.P256, d, res[1:]) != key:
+                    o.cls = "schedule-dependent"
+                    o.viol("threads|%s|%s-block" % (pairing, who), "%s: with the other call run at %s:%d the block of the %s call does not open "
+                           "for its own recipient to its own session key" % (pairing, events[at][0], events[at][1], who))
+                    break
+            if o.viols:
+                break
+        o.extra = {"preemption_points": n}
+    finally:
+        EccEncryptor.DEFAULT_PUBLIC_KEYS.clear()
+        EccEncryptor.DEFAULT_PUBLIC_KEYS.update(saved)
+    return o
+
+
 def run_case(ctx, case):
     kind = case[0]
     o = Outcome("ok", True)
+    if kind == "threads":
+        return run_threads(ctx, case)
     if kind == "file":
         return run_file(ctx, case)
     if kind == "wrap":
